@@ -575,5 +575,7 @@ COMMON_ASSUMPTIONS = [
     'exec()ed; a sample is cross-checked against real subprocesses in the thorough tier',
     'subunit output is not exercised (python-subunit is not installed); the --xml wrapper and the '
     'colour formatter are exercised as options',
+    'threads switch at blocking calls, is_alive() and (one seed in four, at most 1500 times per '
+    'execution) at lines of runner.py - not inside C code or other modules',
     'sampling, not enumeration: a clean batch is evidence, not proof',
 ]
